@@ -715,4 +715,241 @@ theorem never_panics_partial (p : FileP) (h : testdataPrefix.isPrefixOf p.path =
   have := (validate_total p hp).2
   rw [h] at this; cases this
 
+/-! ### valid_base_accepted: a structural family the checkers provably accept -/
+
+def scalarType (t : Nat) : Bool := 1 ≤ t && t ≤ 18 && t != kGroup && t != kMessage && t != kEnum
+
+/-- a plain scalar field: no references, no oneof, no default, no options -/
+def flatField (f : FieldP) : Bool :=
+  scalarType f.type && f.typeName.isNone && f.extendee.isNone && f.oneofIndex.isNone && !f.proto3Optional &&
+  f.defaultOk.isNone && f.packed.isNone && f.features == {} &&
+  (match f.label with | some l => 1 ≤ l && l ≤ 3 | none => true) &&
+  (match f.number with | some n => 1 ≤ n && n ≤ 536870911 | none => false)
+
+def g998 : GoFeatures := (protodescDefaultsGo editionProto2).getD {}
+
+theorem flatField_build (c : Ctx) (scope : Str) (n i : Nat) (f : FieldP) (h : flatField f = true) :
+    (buildField c g998 scope false n i f).resolveErr = none ∧ (buildField c g998 scope false n i f).kind = f.type ∧
+    (buildField c g998 scope false n i f).cardinality = f.label.getD cOptional ∧
+    (buildField c g998 scope false n i f).messageT = none ∧ (buildField c g998 scope false n i f).enumT = none ∧
+    (buildField c g998 scope false n i f).containingOneof = none ∧
+    (buildField c g998 scope false n i f).features = g998 ∧
+    (buildField c g998 scope false n i f).isExtension = false ∧ (buildField c g998 scope false n i f).p = f := by
+  simp only [flatField, Bool.and_eq_true, scalarType, bne_iff_ne, ne_eq, decide_eq_true_eq, Bool.not_eq_true',
+    Option.isNone_iff_eq_none, beq_iff_eq] at h
+  obtain ⟨⟨⟨⟨⟨⟨⟨⟨⟨⟨⟨⟨⟨h1, h2⟩, hg⟩, hm⟩, he⟩, htn⟩, hx⟩, ho⟩, hp3⟩, hd⟩, hpk⟩, hf⟩, hl⟩, hn⟩ := h
+  have hF : fieldFeatures g998 f.features f.packed = g998 := by rw [hf, hpk]; decide
+  have hk0 : (if (f.type == kMessage && g998.isDelimitedEncoded) = true then kGroup else f.type) = f.type := by
+    have : (f.type == kMessage) = false := by simpa using hm
+    simp [this]
+  have hft : findTarget c f.type (f.typeName.getD []) = .ok { kind := f.type } := by
+    rw [htn]
+    unfold findTarget
+    have a : (f.type == kEnum) = false := by simpa using he
+    have b : (f.type == kMessage) = false := by simpa using hm
+    have d : (f.type == kGroup) = false := by simpa using hg
+    have e : (f.type == 0) = false := by simp; omega
+    simp [a, b, d, e, h1, h2]
+  have hlr : g998.isLegacyRequired = false := by decide
+  have hg' : (f.type == kGroup) = false := by simpa using hg
+  simp only [buildField, hF, hk0, hft, ho, hd]
+  simp [cardinalityOf, hlr, hg', defaultErr, Option.orElse, hd]
+
+theorem mem_buildFields (c : Ctx) (par : GoFeatures) (scope : Str) (me : Bool) (n : Nat) (ps : List FieldP) (i : Nat)
+    (d : FieldD) (h : d ∈ buildFields c par scope me n i ps) : ∃ p ∈ ps, ∃ j, d = buildField c par scope me n j p := by
+  induction ps generalizing i with
+  | nil => simp [buildFields] at h
+  | cons p rest ih =>
+    simp only [buildFields, List.mem_cons] at h
+    rcases h with h | h
+    · exact ⟨p, by simp, i, h⟩
+    · obtain ⟨q, hq, j, hj⟩ := ih (i + 1) h
+      exact ⟨q, by simp [hq], j, hj⟩
+
+theorem buildFields_numbers (c : Ctx) (par : GoFeatures) (scope : Str) (me : Bool) (n : Nat) (ps : List FieldP) (i : Nat) :
+    (buildFields c par scope me n i ps).map (fun f => some f.number) = ps.map fun p => some (p.number.getD 0) := by
+  induction ps generalizing i with
+  | nil => rfl
+  | cons p rest ih =>
+    simp only [buildFields, List.map_cons, ih]
+    simp [FieldD.number, buildField]
+
+theorem isPacked_g998 (card kind : Nat) : isPacked card kind g998 = false := by
+  have : g998.isPacked = false := by decide
+  simp only [isPacked, this]
+  split
+  · rfl
+  · split <;> rfl
+
+/-- a flat field of a message without reserved names / ranges / extension ranges passes every field check (proto2) -/
+theorem flat_validateField (v : VCtx) (hv : v.edition = editionProto2) (m : MessageD)
+    (hm : m.p.resNames = [] ∧ m.p.resRanges = [] ∧ m.p.extRanges = [])
+    (c : Ctx) (scope : Str) (n i : Nat) (fp : FieldP) (h : flatField fp = true) :
+    validateField v m (buildField c g998 scope false n i fp) = .ok () := by
+  obtain ⟨_, hk, hc, hmt, het, hco, hfe, hie, hp⟩ := flatField_build c scope n i fp h
+  simp only [flatField, Bool.and_eq_true, scalarType, bne_iff_ne, ne_eq, decide_eq_true_eq, Bool.not_eq_true',
+    Option.isNone_iff_eq_none, beq_iff_eq] at h
+  obtain ⟨⟨⟨⟨⟨⟨⟨⟨⟨⟨⟨⟨⟨h1, h2⟩, hg⟩, hmm⟩, he⟩, htn⟩, hx⟩, ho⟩, hp3⟩, hd⟩, hpk⟩, hf⟩, hl⟩, hn⟩ := h
+  generalize buildField c g998 scope false n i fp = d at *
+  have hnum : numberIsValid d.number = true := by
+    simp only [FieldD.number, hp]
+    cases hnn : fp.number with
+    | none => simp [hnn] at hn
+    | some x =>
+      simp [hnn] at hn
+      simp only [numberIsValid, maxValidNumber, Option.getD_some, Bool.and_eq_true, decide_eq_true_eq]
+      exact ⟨hn.1, decide_eq_true hn.2⟩
+  have hcard : (decide (1 ≤ d.cardinality) && decide (d.cardinality ≤ 3)) = true := by
+    rw [hc]
+    cases hll : fp.label with
+    | none => simp [cOptional]
+    | some l => simpa [hll] using hl
+  have hgrp : checkValidGroup v.env v.all v.edition d = false := by
+    have : (d.kind != kGroup) = true := by rw [hk]; simpa using hg
+    simp [checkValidGroup, this]
+  have hmap : checkValidMap v.env v.all d = false := by simp [checkValidMap, hmt]
+  have hec : enumClosedNonPlaceholder d = false := by simp [enumClosedNonPlaceholder, het]
+  have hpkd : d.isPacked = false := by simp only [FieldD.isPacked, hfe]; exact isPacked_g998 _ _
+  have hp2 : (v.edition == editionProto3) = false := by rw [hv]; decide
+  simp only [validateField, seq_ok_iff, guardV_ok_iff, hm.1, hm.2.1, hm.2.2, hnum, hcard, hgrp, hmap, hec, hpkd, hp2,
+    hp, hx, hp3, hco]
+  simp [fieldRangesHas]
+
+def isNilP : MessagePList → Bool | .nil => true | .cons .. => false
+
+/-- a message with plain scalar fields only: distinct numbers, nothing else declared -/
+def flatMsg (m : MessageP) : Bool :=
+  m.oneofs.isEmpty && isNilP m.nested && m.enums.isEmpty && m.exts.isEmpty && m.extRanges.isEmpty &&
+  m.resRanges.isEmpty && m.resNames.isEmpty && !m.mapEntry && !m.messageSet && m.features == {} &&
+  m.fields.all flatField && !hasDupNumber (m.fields.map fun f => some (f.number.getD 0))
+
+theorem flat_msg (v : VCtx) (hv : v.edition = editionProto2) (c : Ctx) (scope : Str) (m : MessageP)
+    (h : flatMsg m = true) :
+    validateMsg v (buildMsg c g998 scope m) = .ok () ∧ ∀ e ∈ msgResolveErrs (buildMsg c g998 scope m), e = none := by
+  cases m with
+  | mk name fields oneofs nested enums exts xr rr rn me ms feat =>
+    simp only [flatMsg, MessageP.oneofs, MessageP.nested, MessageP.enums, MessageP.exts, MessageP.extRanges,
+      MessageP.resRanges, MessageP.resNames, MessageP.mapEntry, MessageP.messageSet, MessageP.features, MessageP.fields,
+      Bool.and_eq_true, List.isEmpty_iff, Bool.not_eq_true', beq_iff_eq, List.all_eq_true] at h
+    obtain ⟨⟨⟨⟨⟨⟨⟨⟨⟨⟨⟨ho, hn⟩, he⟩, hx⟩, hxr⟩, hrr⟩, hrn⟩, hme⟩, hms⟩, hfe⟩, hff⟩, hdup⟩ := h
+    subst ho he hx hxr hrr hrn hme hms hfe
+    cases nested with
+    | cons a b => simp [isNilP] at hn
+    | nil =>
+      have hg : mergeGo g998 {} = g998 := by decide
+      have hp2 : (v.edition == editionProto3) = false := by rw [hv]; decide
+      simp only [buildMsg, hg, List.length_nil, buildMsgs, List.map_nil, buildExts, buildOneofs]
+      constructor
+      · simp only [validateMsg, seq_ok_iff, guardV_ok_iff, allV_ok_iff, MessageP.messageSet, MessageP.resNames,
+          MessageP.resRanges, MessageP.extRanges, hp2]
+        refine ⟨by simp [namesHaveDup], by simp [sortByStart, fieldRangesBad], by simp [sortByStart, fieldRangesBad],
+          by simp [rangesOverlap], ?_, by simp, by simp, by simp, ?_, by simp [validateOneofs], by simp [allV],
+          by simp [validateMsgs], by simp [allV]⟩
+        · simp only [fieldNumbersConflict, buildFields_numbers]
+          simpa using hdup
+        · intro d hd
+          obtain ⟨p, hp, j, rfl⟩ := mem_buildFields _ _ _ _ _ _ _ d hd
+          exact flat_validateField v hv _ ⟨rfl, rfl, rfl⟩ c _ 0 j p (hff p hp)
+      · intro e he
+        simp only [msgResolveErrs, msgsResolveErrs, List.map_nil, List.append_nil, List.mem_map] at he
+        obtain ⟨d, hd, rfl⟩ := he
+        obtain ⟨p, hp, j, rfl⟩ := mem_buildFields _ _ _ _ _ _ _ d hd
+        exact (flatField_build c _ 0 j p (hff p hp)).1
+
+theorem flat_msgs (v : VCtx) (hv : v.edition = editionProto2) (c : Ctx) (scope : Str) : (ms : MessagePList) →
+    (∀ m ∈ ms.toList, flatMsg m = true) →
+    validateMsgs v (buildMsgs c g998 scope ms) = .ok () ∧ ∀ e ∈ msgsResolveErrs (buildMsgs c g998 scope ms), e = none
+  | .nil, _ => by simp [buildMsgs, validateMsgs, msgsResolveErrs]
+  | .cons m rest, h => by
+    have h1 := flat_msg v hv c scope m (h m (by simp [MessagePList.toList]))
+    have h2 := flat_msgs v hv c scope rest (fun x hx => h x (by simp [MessagePList.toList, hx]))
+    simp only [buildMsgs, validateMsgs, seq_ok_iff, msgsResolveErrs, List.mem_append]
+    refine ⟨⟨h1.1, h2.1⟩, ?_⟩
+    rintro e (he | he)
+    · exact h1.2 e he
+    · exact h2.2 e he
+
+def nodupB : List Str → Bool
+  | [] => true
+  | x :: r => !r.contains x && nodupB r
+
+theorem checkDecls_of_valid (ds : List Decl) (seen : List Str) (hv : ∀ d ∈ ds, isValidName d.2 = true)
+    (hn : nodupB (ds.map (·.1)) = true) (hs : ∀ d ∈ ds, d.1 ∉ seen) : checkDecls ds seen = .ok () := by
+  induction ds generalizing seen with
+  | nil => rfl
+  | cons d rest ih =>
+    obtain ⟨full, name⟩ := d
+    simp only [List.map_cons, nodupB, Bool.and_eq_true, Bool.not_eq_true', List.contains_eq_mem,
+      decide_eq_false_iff_not, List.mem_map, not_exists, not_and] at hn
+    have hvd := hv (full, name) (by simp)
+    have hsd := hs (full, name) (by simp)
+    simp only at hvd hsd
+    simp only [checkDecls, hvd, Bool.not_true, Bool.false_eq_true, ↓reduceIte, List.contains_eq_mem, hsd, decide_false]
+    apply ih
+    · intro d hd; exact hv d (by simp [hd])
+    · exact hn.2
+    · intro d hd
+      simp only [List.mem_cons, not_or]
+      refine ⟨?_, hs d (by simp [hd])⟩
+      intro heq
+      exact hn.1 d hd heq
+
+/-- The generator's simplest base family: a proto2 file (syntax "proto2" or absent) of messages with plain scalar
+fields only (any of the 15 scalar types, any label, numbers distinct and in range), valid distinct names. -/
+def flatValid (p : FileP) : Bool :=
+  (p.syn == 2 || p.syn == 0) && !p.path.isEmpty && (isValidFullName p.pkg || p.pkg.isEmpty) && p.features == {} &&
+  p.enums.isEmpty && p.exts.isEmpty && p.services.isEmpty && p.messages.toList.all flatMsg &&
+  (fileDecls p).all (fun d => isValidName d.2) && nodupB ((fileDecls p).map (·.1))
+
+/-- **valid_base_accepted (flat scalar family).** Every file of the family is accepted, whatever the resolver
+contents and options, and `newFile` returns the built descriptor. -/
+theorem valid_flat_accepted (env : Env) (p : FileP) (h : flatValid p = true) : newFile env p = .ok (build env p) := by
+  simp only [flatValid, Bool.and_eq_true, Bool.or_eq_true, beq_iff_eq, Bool.not_eq_true', List.isEmpty_iff,
+    List.all_eq_true] at h
+  obtain ⟨⟨⟨⟨⟨⟨⟨⟨⟨hsyn, hpath⟩, hpkg⟩, hfeat⟩, hen⟩, hex⟩, hsv⟩, hms⟩, hval⟩, hnd⟩ := h
+  rw [newFile_ok_iff]
+  refine ⟨⟨?_, ?_, ?_, ?_⟩, rfl⟩
+  · -- header
+    have hed : fileEdition p = editionProto2 := by
+      rcases hsyn with h | h <;> simp [fileEdition, h]
+    have h1 : (p.syn == 1) = false := by rcases hsyn with h | h <;> simp [h]
+    have h9 : (p.syn == 9) = false := by rcases hsyn with h | h <;> simp [h]
+    have hpk : (!isValidFullName p.pkg && !p.pkg.isEmpty) = false := by
+      rcases hpkg with h | h <;> simp [h]
+    have hdf : (defaultsFor editionProto2).isNone = false := by decide
+    simp [checkHeader, h1, hpath, h9, hpk, hed, hdf]
+  · exact checkDecls_of_valid _ _ (fun d hd => hval d hd) hnd (fun _ _ => by simp)
+  · -- resolution
+    have hff : fileFeatures p = g998 := by
+      have hed : fileEdition p = editionProto2 := by
+        rcases hsyn with h | h <;> simp [fileEdition, h]
+      simp only [fileFeatures, hed, hfeat]
+      decide
+    have hv : (⟨env, [], editionProto2⟩ : VCtx).edition = editionProto2 := rfl
+    have := (flat_msgs ⟨env, [], editionProto2⟩ hv (mkCtx env p) p.pkg p.messages hms).2
+    simp only [checkResolve, firstErr_ok_iff, build, hff, hex, hsv, buildExts, List.map_nil, List.flatMap_nil,
+      List.append_nil]
+    exact this
+  · have hff : fileFeatures p = g998 := by
+      have hed : fileEdition p = editionProto2 := by
+        rcases hsyn with h | h <;> simp [fileEdition, h]
+      simp only [fileFeatures, hed, hfeat]
+      decide
+    have hed : fileEdition p = editionProto2 := by
+      rcases hsyn with h | h <;> simp [fileEdition, h]
+    simp only [validateFile, seq_ok_iff, build, hff, hen, hex, hed, List.map_nil, buildExts, allV, and_true, true_and]
+    exact (flat_msgs _ rfl (mkCtx env p) p.pkg p.messages hms).1
+
+/-- the family is not empty: a two-message file with several scalar kinds and labels -/
+def flatExample : FileP :=
+  { path := str "w/flat.proto", pkg := str "w.sub", syn := 2
+    messages := .cons (.mk (str "A")
+      [{ name := str "x", number := some 1, label := some 1, type := 5 },
+       { name := str "y", number := some 536870911, label := some 3, type := 9 },
+       { name := str "z", number := some 19000, label := some 2, type := 1 }]
+      [] .nil [] [] [] [] [] false false {})
+      (.cons (.mk (str "B") [{ name := str "x", number := some 2, label := none, type := 12 }]
+        [] .nil [] [] [] [] [] false false {}) .nil) }
+
+example : flatValid flatExample = true := by decide
 end C35
